@@ -5,7 +5,7 @@ Import ListNotations.
 
 Section Proofs.
 Variable D : dec.
-Variable hdc dc : bool.
+Variable hdc dc fe : bool.
 Variable raw : list N.
 
 Definition decoding : bool := dc && hdc.
@@ -116,7 +116,7 @@ Proof.
 Qed.
 
 Lemma read_all_ok s piece s' :
-  wf s -> read D hdc dc true s None = (piece, s') -> step_ok s piece s' /\ s_pos s' = length raw /\ s_buf s' = [].
+  wf s -> read D hdc dc true fe s None = (piece, s') -> step_ok s piece s' /\ s_pos s' = length raw /\ s_buf s' = [].
 Proof.
   intros Hwf H. unfold read in H.
   destruct (fp_read s None) as [data pos1] eqn:Hf.
@@ -137,15 +137,24 @@ Proof.
       split; [rewrite Hbn in Hw; exact Hw|]. exists delta. split; [rewrite Hbn in Hp; exact Hp|].
       cbn [set_pos_dpos_buf s_buf] in *. rewrite Hbn in *. exact Hb. }
   destruct (match2 _ _ _ _ _ H) as [(Hd0 & Hb0 & Heq)|Heq].
-  - inversion Heq; subst piece s'; clear Heq. split; [apply step_ok_same; exact Hwf|]. split; [|exact Hb0].
-    rewrite Hd0 in H5. cbn [length] in H5. lia.
+  - assert (Hpos : s_pos s = length raw) by (rewrite Hd0 in H5; cbn [length] in H5; lia).
+    destruct (fe && dc) eqn:Hfd.
+    + apply andb_true_iff in Hfd as [_ Hdc].
+      destruct (decode_step D hdc dc s [] (s_pos s) true) as [[out dpos1] hd1] eqn:Hd.
+      assert (Hraw0 : firstn (s_pos s) raw = firstn (s_pos s) raw ++ []) by (rewrite app_nil_r; reflexivity).
+      destruct Hwf as (W1 & W2 & W3 & W4).
+      destruct (decode_step_spec s [] (s_pos s) true out dpos1 hd1 (conj W1 (conj W2 (conj W3 W4))) (le_n _) W2 Hraw0 Hd Hdc) as (Hw & Hp).
+      inversion Heq; subst piece s'; clear Heq. cbn [set_pos_dpos_buf s_pos s_buf]. split; [|split; [exact Hpos|reflexivity]].
+      split; [eapply wf_rebuf; [exact Hw|congruence]|]. exists out. split; [exact Hp|].
+      cbn [set_pos_dpos_buf s_buf]. rewrite Hb0, app_nil_r. reflexivity.
+    + inversion Heq; subst piece s'; clear Heq. split; [apply step_ok_same; exact Hwf|]. split; [exact Hpos|exact Hb0].
   - destruct (decode_step D hdc dc s data pos1 true) as [[out dpos1] hd1] eqn:Hd. eapply Hgen; eauto.
 Qed.
 
 (* the loop of read(n) *)
 Lemma read_loop_ok fuel n s flush0 : dc = true -> forall pos dpos buf hd last pos2 dpos2 buf2 hd2,
   wf (set_pos_dpos_buf s pos dpos buf hd (s_tape s)) ->
-  read_loop D hdc dc fuel n pos dpos buf hd s last flush0 = (pos2, dpos2, buf2, hd2) ->
+  read_loop D hdc dc fe fuel n pos dpos buf hd s last flush0 = (pos2, dpos2, buf2, hd2) ->
   wf (set_pos_dpos_buf s pos2 dpos2 buf2 hd2 (s_tape s)) /\
   exists delta, produced (set_pos_dpos_buf s pos2 dpos2 buf2 hd2 (s_tape s)) =
                 produced (set_pos_dpos_buf s pos dpos buf hd (s_tape s)) ++ delta /\ buf2 = buf ++ delta.
@@ -157,8 +166,9 @@ Proof.
     + set (s1 := set_pos_dpos_buf s pos dpos buf hd (s_tape s)) in *.
       destruct (fp_read s1 (Some n)) as [data pos1] eqn:Hf.
       destruct (fp_read_spec s1 (Some n) data pos1 Hwf Hf) as (H1 & H2 & H3 & _).
-      destruct (decode_step D hdc dc s1 data pos1 flush0) as [[out dpos1] hd1] eqn:Hd.
-      destruct (decode_step_spec s1 data pos1 flush0 out dpos1 hd1 Hwf H1 H2 H3 Hd Hdc) as (Hw & Hp).
+      set (fl := if fe then match data with [] => true | _ :: _ => false end else flush0) in *.
+      destruct (decode_step D hdc dc s1 data pos1 fl) as [[out dpos1] hd1] eqn:Hd.
+      destruct (decode_step_spec s1 data pos1 fl out dpos1 hd1 Hwf H1 H2 H3 Hd Hdc) as (Hw & Hp).
       cbn [set_pos_dpos_buf s_buf s_tape s1] in Hw, Hp.
       specialize (IH pos1 dpos1 (buf ++ out) hd1 _ pos2 dpos2 buf2 hd2 Hw H). destruct IH as (Hw2 & delta & Hp2 & Hb2).
       split; [exact Hw2|]. exists (out ++ delta). split.
@@ -169,7 +179,7 @@ Proof.
 Qed.
 
 Lemma read_n_ok s n piece s' :
-  wf s -> read D hdc dc true s (Some n) = (piece, s') -> step_ok s piece s' /\ length piece <= n.
+  wf s -> read D hdc dc true fe s (Some n) = (piece, s') -> step_ok s piece s' /\ length piece <= n.
 Proof.
   intros Hwf H. unfold read in H.
   destruct (Nat.leb n (length (s_buf s))) eqn:Hle.
@@ -182,13 +192,22 @@ Proof.
   destruct (fp_read_spec s (Some n) data pos1 Hwf Hf) as (H1 & H2 & H3 & H4 & H5 & _).
   assert (Hdn : length data <= n) by (unfold fp_read in Hf; inversion Hf; rewrite firstn_length; lia).
   destruct (match2 _ _ _ _ _ H) as [(Hd0 & Hb0 & Heq)|Heq]; clear H.
-  - inversion Heq; subst piece s'. split; [apply step_ok_same; exact Hwf|cbn; lia].
+  - destruct (fe && dc && match data with [] => negb (Nat.eqb n 0) | _ :: _ => false end) eqn:Hfd.
+    + apply andb_true_iff in Hfd as [Hfd _]. apply andb_true_iff in Hfd as [_ Hdc].
+      destruct (decode_step D hdc dc s [] (s_pos s) true) as [[out dpos1] hd1] eqn:Hd.
+      assert (Hraw0 : firstn (s_pos s) raw = firstn (s_pos s) raw ++ []) by (rewrite app_nil_r; reflexivity).
+      destruct Hwf as (W1 & W2 & W3 & W4).
+      destruct (decode_step_spec s [] (s_pos s) true out dpos1 hd1 (conj W1 (conj W2 (conj W3 W4))) (le_n _) W2 Hraw0 Hd Hdc) as (Hw & Hp).
+      inversion Heq; subst piece s'; clear Heq. split; [|rewrite firstn_length; lia].
+      split; [eapply wf_rebuf; [exact Hw|congruence]|]. exists out. split; [exact Hp|].
+      cbn [set_pos_dpos_buf s_buf]. rewrite Hb0, firstn_skipn. reflexivity.
+    + inversion Heq; subst piece s'. split; [apply step_ok_same; exact Hwf|cbn; lia].
   - destruct (bool_dec dc true) as [Hdc|Hdc].
     + rewrite Hdc in Heq. cbn [negb] in Heq. rewrite <- Hdc in Heq.
       set (fl := match data with [] => negb (Nat.eqb n 0) | _ => false end) in *.
       destruct (decode_step D hdc dc s data pos1 fl) as [[out dpos1] hd1] eqn:Hd.
       destruct (decode_step_spec s data pos1 fl out dpos1 hd1 Hwf H1 H2 H3 Hd Hdc) as (Hw & Hp).
-      destruct (read_loop D hdc dc (S (rest s)) n pos1 dpos1 (s_buf s ++ out) hd1 s _ fl) as [[[pos2 dpos2] buf2] hd2] eqn:Hl.
+      destruct (read_loop D hdc dc fe (S (rest s)) n pos1 dpos1 (s_buf s ++ out) hd1 s _ fl) as [[[pos2 dpos2] buf2] hd2] eqn:Hl.
       destruct (read_loop_ok _ n s fl Hdc _ _ _ _ _ _ _ _ _ Hw Hl) as (Hw2 & delta & Hp2 & Hb2).
       inversion Heq; subst piece s'; clear Heq. split; [|rewrite firstn_length; lia].
       split; [eapply wf_rebuf; [exact Hw2|congruence]|]. exists (out ++ delta). split.
@@ -294,13 +313,13 @@ Proof.
   - rewrite app_assoc, B1, <- app_assoc, B2, app_assoc. reflexivity.
 Qed.
 
-Lemma run_calls_ok cs : forall s ps s', wf s -> run_calls D hdc dc true true s cs = (ps, s') -> step_ok s (concat ps) s'.
+Lemma run_calls_ok cs : forall s ps s', wf s -> run_calls D hdc dc true true fe s cs = (ps, s') -> step_ok s (concat ps) s'.
 Proof.
   induction cs as [|c cs IH]; intros s ps s' Hwf H; cbn [run_calls] in H.
   - inversion H; subst. apply step_ok_same; exact Hwf.
-  - destruct (match c with CRead a => read D hdc dc true s a | CRead1 a => read1 D hdc dc s a | CReadinto k => read D hdc dc true s (Some k) end)
+  - destruct (match c with CRead a => read D hdc dc true fe s a | CRead1 a => read1 D hdc dc s a | CReadinto k => read D hdc dc true fe s (Some k) end)
       as [p s1] eqn:Hc.
-    destruct (run_calls D hdc dc true true s1 cs) as [ps1 s2] eqn:Hr. inversion H; subst ps s'; clear H.
+    destruct (run_calls D hdc dc true true fe s1 cs) as [ps1 s2] eqn:Hr. inversion H; subst ps s'; clear H.
     assert (Hs1 : step_ok s p s1).
     { destruct c as [[n|]|a|k].
       - exact (proj1 (read_n_ok s n p s1 Hwf Hc)).
@@ -311,24 +330,24 @@ Proof.
 Qed.
 
 (* ---------- stream() through read() ---------- *)
-Lemma read_ok s amt piece s' : wf s -> read D hdc dc true s amt = (piece, s') -> step_ok s piece s'.
+Lemma read_ok s amt piece s' : wf s -> read D hdc dc true fe s amt = (piece, s') -> step_ok s piece s'.
 Proof. intros Hwf H. destruct amt as [n|]; [exact (proj1 (read_n_ok s n piece s' Hwf H))|exact (proj1 (read_all_ok s piece s' Hwf H))]. Qed.
 
 Lemma stream_loop_ok fuel amt : forall s ps s',
-  wf s -> stream_loop D hdc dc true fuel s amt = (ps, s') ->
+  wf s -> stream_loop D hdc dc true fe fuel s amt = (ps, s') ->
   step_ok s (concat ps) s' /\ Forall (fun p => p <> []) ps.
 Proof.
   induction fuel as [|f IH]; intros s ps s' Hwf H; cbn [stream_loop] in H.
   - inversion H; subst ps s'. split; [apply step_ok_same; exact Hwf|constructor].
-  - destruct (read D hdc dc true s amt) as [piece s1] eqn:Hr.
+  - destruct (read D hdc dc true fe s amt) as [piece s1] eqn:Hr.
     pose proof (read_ok s amt piece s1 Hwf Hr) as Hs1.
     destruct piece as [|b0 piece].
     + destruct (Nat.eqb (rest s1) 0 && match s_buf s1 with [] => true | _ => false end).
       * inversion H; subst ps s'. split; [exact Hs1|constructor].
-      * destruct (stream_loop D hdc dc true f s1 amt) as [more s2] eqn:Hm. inversion H; subst ps s'; clear H.
+      * destruct (stream_loop D hdc dc true fe f s1 amt) as [more s2] eqn:Hm. inversion H; subst ps s'; clear H.
         destruct (IH s1 more s2 (proj1 Hs1) Hm) as [Hs2 Hne]. split; [|exact Hne].
         change (concat more) with ([] ++ concat more). eapply step_ok_trans; eassumption.
-    + destruct (stream_loop D hdc dc true f s1 amt) as [more s2] eqn:Hm. inversion H; subst ps s'; clear H.
+    + destruct (stream_loop D hdc dc true fe f s1 amt) as [more s2] eqn:Hm. inversion H; subst ps s'; clear H.
       destruct (IH s1 more s2 (proj1 Hs1) Hm) as [Hs2 Hne]. split; [|constructor; [discriminate|exact Hne]].
       cbn [concat]. eapply step_ok_trans; eassumption.
 Qed.
@@ -448,11 +467,11 @@ Qed.
 (* every finisher, from a well-formed state with the guard conditions the code checks *)
 Lemma run_finish_ok chunked s f fs s' :
   wf s -> (forall a, f = FReadChunked a -> s_buf s = []) -> dc = true \/ f <> FIter ->
-  run_finish D hdc dc true true chunked s f = (fs, s') -> step_ok s (concat fs) s'.
+  run_finish D hdc dc true true fe chunked s f = (fs, s') -> step_ok s (concat fs) s'.
 Proof.
   intros Hwf Hrc Hit H. destruct f as [| |a|a| |]; cbn [run_finish] in H.
   - inversion H; subst fs s'. apply step_ok_same; exact Hwf.
-  - destruct (read D hdc dc true s None) as [p s1] eqn:Hr. inversion H; subst fs s'. cbn [concat]. rewrite app_nil_r.
+  - destruct (read D hdc dc true fe s None) as [p s1] eqn:Hr. inversion H; subst fs s'. cbn [concat]. rewrite app_nil_r.
     exact (proj1 (read_all_ok s p s1 Hwf Hr)).
   - unfold stream in H. cbn [negb orb] in H.
     destruct (chunked && (Nat.eqb (s_pos s) 0 && match s_buf s with [] => true | _ => false end)) eqn:Hg.
@@ -462,9 +481,9 @@ Proof.
     + exact (proj1 (stream_loop_ok _ a s fs s' Hwf H)).
   - exact (proj1 (read_chunked_ok s a fs s' Hwf (Hrc a eq_refl) H)).
   - destruct Hit as [Hdc|Hn]; [|congruence].
-    replace (stream D hdc true true true chunked s (Some n65536)) with (stream D hdc dc true true chunked s (Some n65536)) in H
+    replace (stream D hdc true true true fe chunked s (Some n65536)) with (stream D hdc dc true true fe chunked s (Some n65536)) in H
       by (rewrite Hdc; reflexivity).
-    destruct (stream D hdc dc true true chunked s (Some n65536)) as [ps s1] eqn:Hs. inversion H; subst fs s'; clear H.
+    destruct (stream D hdc dc true true fe chunked s (Some n65536)) as [ps s1] eqn:Hs. inversion H; subst fs s'; clear H.
     rewrite lines_of_concat. cbn [app].
     unfold stream in Hs. cbn [negb orb] in Hs.
     destruct (chunked && (Nat.eqb (s_pos s) 0 && match s_buf s with [] => true | _ => false end)) eqn:Hg.
@@ -472,7 +491,7 @@ Proof.
       assert (Hb : s_buf s = []) by (destruct (s_buf s); [reflexivity|discriminate]).
       exact (proj1 (read_chunked_ok s _ ps s1 Hwf Hb Hs)).
     + exact (proj1 (stream_loop_ok _ _ s ps s1 Hwf Hs)).
-  - destruct (read D hdc dc true s None) as [p s1] eqn:Hr. inversion H; subst fs s'. cbn [concat]. rewrite app_nil_r.
+  - destruct (read D hdc dc true fe s None) as [p s1] eqn:Hr. inversion H; subst fs s'. cbn [concat]. rewrite app_nil_r.
     exact (proj1 (read_all_ok s p s1 Hwf Hr)).
 Qed.
 
@@ -480,9 +499,9 @@ Qed.
    a prefix of the payload, nothing lost, duplicated or reordered *)
 Theorem returned_is_prefix chunked chunks tape cs f ps fs s1 s2 :
   dec_ok ->
-  run_calls D hdc dc true true (s0 chunks tape) cs = (ps, s1) ->
+  run_calls D hdc dc true true fe (s0 chunks tape) cs = (ps, s1) ->
   (forall a, f = FReadChunked a -> s_buf s1 = []) -> dc = true \/ f <> FIter ->
-  run_finish D hdc dc true true chunked s1 f = (fs, s2) ->
+  run_finish D hdc dc true true fe chunked s1 f = (fs, s2) ->
   exists more, target = (concat ps ++ concat fs) ++ s_buf s2 ++ more.
 Proof.
   intros Hok Hc Hrc Hit Hf.
@@ -496,14 +515,14 @@ Qed.
 (* ended by read() or preloaded: everything was returned *)
 Theorem read_returns_everything chunked chunks tape cs f ps fs s1 s2 :
   dec_ok -> f = FRead \/ f = FData ->
-  run_calls D hdc dc true true (s0 chunks tape) cs = (ps, s1) ->
-  run_finish D hdc dc true true chunked s1 f = (fs, s2) ->
+  run_calls D hdc dc true true fe (s0 chunks tape) cs = (ps, s1) ->
+  run_finish D hdc dc true true fe chunked s1 f = (fs, s2) ->
   concat ps ++ concat fs = target.
 Proof.
   intros Hok Hfr Hc Hf.
   pose proof (run_calls_ok cs _ _ _ (wf_s0 chunks tape Hok) Hc) as H1.
   assert (Hd : step_ok s1 (concat fs) s2 /\ s_pos s2 = length raw /\ s_buf s2 = []).
-  { destruct Hfr as [-> | ->]; cbn [run_finish] in Hf; destruct (read D hdc dc true s1 None) as [p s3] eqn:Hr;
+  { destruct Hfr as [-> | ->]; cbn [run_finish] in Hf; destruct (read D hdc dc true fe s1 None) as [p s3] eqn:Hr;
       inversion Hf; subst fs s2; cbn [concat]; rewrite app_nil_r; exact (read_all_ok s1 p s3 (proj1 H1) Hr). }
   destruct Hd as (H2 & Hpos & Hbuf).
   pose proof (step_ok_trans _ _ _ _ _ H1 H2) as H3.
@@ -513,9 +532,9 @@ Qed.
 (* any finisher: once the source is dry and nothing is buffered, everything was returned *)
 Theorem drained_returns_everything chunked chunks tape cs f ps fs s1 s2 :
   dec_ok ->
-  run_calls D hdc dc true true (s0 chunks tape) cs = (ps, s1) ->
+  run_calls D hdc dc true true fe (s0 chunks tape) cs = (ps, s1) ->
   (forall a, f = FReadChunked a -> s_buf s1 = []) -> dc = true \/ f <> FIter ->
-  run_finish D hdc dc true true chunked s1 f = (fs, s2) ->
+  run_finish D hdc dc true true fe chunked s1 f = (fs, s2) ->
   s_pos s2 = length raw -> s_buf s2 = [] ->
   concat ps ++ concat fs = target.
 Proof.
